@@ -267,7 +267,7 @@ func writeToTar(out *tar.Writer, name string, body []byte) error {
 func validateName(name string) error {
 	nname := filepath.Base(name)
 
-	if nname != name {
+	if nname != name || name == "." || name == ".." {
 		return ErrInvalidChartName{name}
 	}
 
